@@ -120,8 +120,16 @@ def relations(o, rr, ff, fs, T, has_grid, n_grid):
         o['gtol'] = 64 if exact else int(1e-4 * ONE)
 
 
-def evaluate(args):
+def evaluate_fresh(args):
+    """The same relations on a bundle built from scratch at the requested
+    flow (no clone of a template in between)."""
+    return evaluate(args, fresh=True)
+
+
+def evaluate(args, fresh=False):
     (n_ring, dims, re_target, ff, fs, mix, gname, label, nominal) = args
+    if fresh:
+        label = label + '/fresh'
     dassh = common.import_dassh()
     import dassh.correlations.friction_ctd as fctd
     import dassh.correlations.friction_uctd as fuctd
@@ -148,7 +156,11 @@ def evaluate(args):
         mu = tmpl.coolant.viscosity
         flow = re_target * mu * tmpl.bundle_params['area'] \
             / tmpl.bundle_params['de']
-        rr = tmpl.clone(new_flowrate=flow)
+        if fresh:
+            rr = bs.make_region(dassh, n_ring, dims, 1, flow=flow, ff=ff,
+                                fs=fs, mix=mix, grid=GRIDS[gname])
+        else:
+            rr = tmpl.clone(new_flowrate=flow)
         rr.z = [0.0, 1.0]
         relations(o, rr, ff, fs, T, GRIDS[gname] is not None,
                   len(GRIDS[gname]['axial_positions'])
@@ -274,6 +286,9 @@ def run(tier, res, replay=None):
     jobs = cases_for(rng, tier)
     with ProcessPoolExecutor(max_workers=common.NCPU) as ex:
         obs = list(ex.map(evaluate, jobs, chunksize=16))
+        # the Cheng-Todreas families on bundles built from scratch
+        fj = [j for j in jobs if j[3] == j[4] and j[3] in ('CTD', 'UCTD')]
+        obs += list(ex.map(evaluate_fresh, fj, chunksize=16))
         obs += list(ex.map(evaluate_reactor, reactor_cases(rng)))
     traces = [{'cfg': {}, 'ev': [o]} for o in obs]
     n = common.NCPU
